@@ -55,7 +55,7 @@ def handle (op : String) (args : List String) : Option String :=
   | "c04.claim_guard" => do
       -- measuring aid (never emitted by the harness): is this configuration × mesh inside the header-level guard?
       let (cfg, m) ← run (do let c ← pCfg; let m ← pMesh; pure (c, m)) args
-      pure (boolStr (claimGuard (selectWriters cfg m)))
+      pure (boolStr (claimGuard (selectWriters cfg m)) ++ " " ++ boolStr (asciiGuard (selectWriters cfg m)))
   | "c04.holds.encodings_agree" | "c04.holds.uchar_scalar_ascii_agrees" | "c04.holds.ascii_float32_tie_witness" => do
       let (a, b, c) ← run (do let a ← pOkMesh; let b ← pOkMesh; let c ← pOkMesh; pure (a, b, c)) args
       pure (boolStr (meshEq a b && meshEq b c))
